@@ -198,7 +198,8 @@ class Ctx:
             binp = os.path.join(self.tmp, "gotocoq")
             if not os.path.exists(binp):
                 sh(["go", "build", "-o", binp, "."], cwd=tdir, env=GOENV, timeout=600)
-            self.check_genlink(lambda out: [binp, REPO, out], "GoArithGen", link, link + ".gen", pre_files=("GoLinkCommon",),
+            self.check_genlink(lambda out: [binp, REPO, out], "GoArithGen", link, link + ".gen",
+                               pre_files=("GoLinkCommon",) + (("GoLinkC08",) if link == "GoLinkC11" else ()),
                                display="tools/gotocoq (built with go build this run) %s <out>" % REPO)
             return None
         except Fail as e:
